@@ -143,7 +143,49 @@ def handle (op _opts payload : String) : String :=
   else "bad-request"
 end S
 
+/-! ### PDB: `x<title>;zn:x<name>:x<res>:<chaincode>:resnum:x:y:z:occ:b,…;i:j,…`
+loaded: `x<title>;<compound or ->;<chainids 0/1>;atoms;bonds` -/
+namespace P
+open Iodata.Fmt.Pdb
+
+def decAtom (s : String) : Atom :=
+  match s.splitOn ":" with
+  | [zn, nm, rs, ch, rn, x, y, z, o, b] =>
+    ⟨decNat zn, decStr nm, decStr rs, Char.ofNat (decNat ch), decInt rn, decFx x, decFx y, decFx z, decFx o, decFx b⟩
+  | _ => ⟨0, [], [], ' ', 0, ⟨false, 0⟩, ⟨false, 0⟩, ⟨false, 0⟩, ⟨false, 0⟩, ⟨false, 0⟩⟩
+def encAtom (a : Atom) : String :=
+  ":".intercalate [toString a.zn, encStr a.name, encStr a.res, toString a.chain.toNat, toString a.resnum,
+    encFx a.x, encFx a.y, encFx a.z, encFx a.occ, encFx a.b]
+def decPair (s : String) : Nat × Nat :=
+  match s.splitOn ":" with
+  | [i, j] => (decNat i, decNat j)
+  | _ => (0, 0)
+def encPair (p : Nat × Nat) : String := s!"{p.1}:{p.2}"
+
+def decObj (s : String) : Obj :=
+  match s.splitOn ";" with
+  | [t, ats, bs] => ⟨decStr t, decList "," decAtom ats, decList "," decPair bs⟩
+  | _ => ⟨[], [], []⟩
+def encLoaded (o : Loaded) : String :=
+  ";".intercalate [encStr o.title, (match o.compound with | some c => encStr c | none => "-"),
+    (if o.chainids then "1" else "0"), encList "," encAtom o.atoms, encList "," encPair o.bonds]
+
+def handle (op _opts payload : String) : String :=
+  let L := Gen.Layouts.pdbL
+  let T := Gen.Layouts.tables
+  if op == "dump" || op == "spec" then
+    match dumpE T L (decObj payload) with
+    | .ok ls => okHex ls
+    | .error _ => "err DumpError"
+  else if op == "load" then
+    match load T L (linesOfHex payload) with
+    | .ok o => "ok " ++ encLoaded o
+    | .error _ => "err LoadError"
+  else "bad-request"
+end P
+
 def handle : List String → Option String
+  | ["fmt", op, "pdb", opts, payload] => some (P.handle op opts payload)
   | ["fmt", op, "xyz", opts, payload] => some (X.handle op opts payload)
   | ["fmt", op, "sdf", opts, payload] => some (S.handle op opts payload)
   | _ => none
